@@ -477,7 +477,7 @@ func mapShape(s exact.Shape, f func(exact.P) exact.P) exact.Shape {
 }
 
 // genPair draws an ordered pair of valid shapes; relatedBias in 0..10 is the weight of related B.
-func genPair(t *rapid.T, ka, kb exact.Kind, relatedBias int, mustClose bool) pairCase {
+func genPair(t *rapid.T, ka, kb exact.Kind, relatedBias int, mustClose, allowEmpty bool) pairCase {
 	R := rapid.SampledFrom([]int64{4, 6, 6, 8, 12}).Draw(t, "R")
 	maxN := 8
 	if rapid.IntRange(0, 9).Draw(t, "bigring") == 0 {
@@ -497,11 +497,29 @@ func genPair(t *rapid.T, ka, kb exact.Kind, relatedBias int, mustClose bool) pai
 	} else {
 		B = genShapeOfKind(t, kb, R, maxN, mustClose)
 	}
+	if allowEmpty && rapid.IntRange(0, 39).Draw(t, "empty") == 0 {
+		// empty operand: a line of fewer than two, a polygon of fewer than three positions
+		tgt := &B
+		if rapid.Bool().Draw(t, "emptyA") {
+			tgt = &A
+		}
+		if tgt.K == exact.KLine || tgt.K == exact.KPoly {
+			var pts []exact.P
+			for i := rapid.IntRange(0, int(tgt.K)-1).Draw(t, "emptylen"); i > 0; i-- {
+				pts = append(pts, genLatP(t, R, "e"))
+			}
+			if tgt.K == exact.KLine {
+				*tgt = exact.Shape{K: exact.KLine, Line: pts}
+			} else {
+				*tgt = exact.Shape{K: exact.KPoly, Ext: pts}
+			}
+		}
+	}
 	// similarity: integer multiplier and translation, then a common power-of-two scale
 	if rapid.IntRange(0, 3).Draw(t, "sim") == 0 {
 		k := rapid.SampledFrom([]int64{2, 3, 1000, (1 << 19) / R}).Draw(t, "mult")
-		tx := rapid.Int64Range(-(1 << 20), (1<<20)-k*R).Draw(t, "tx")
-		ty := rapid.Int64Range(-(1 << 20), (1<<20)-k*R).Draw(t, "ty")
+		tx := rapid.Int64Range(-(1<<20), (1<<20)-k*R).Draw(t, "tx")
+		ty := rapid.Int64Range(-(1<<20), (1<<20)-k*R).Draw(t, "ty")
 		f := func(p exact.P) exact.P { return exact.P{X: k*p.X + tx, Y: k*p.Y + ty} }
 		A, B = mapShape(A, f), mapShape(B, f)
 	}
